@@ -13,7 +13,7 @@ import (
 func init() {
 	Register(&Scenario{
 		Prop: "C09", Run: scenarioC09, QuickRuns: 1600, ThoroughRuns: 40000, Level: "exploration",
-		Rule: "one run = a seeded world with a positive fitness landscape turned over for 1..N epochs; every epoch is observed before the turnover (raw fitness, membership, ages), at the 'epoch.prepared' observation point (adjusted fitness, expected offspring, quotas after stealing / delta coding, parents left after culling) and at the first speciation (number of babies); the apportionment oracle recomputes expectations, the carried-floor prefix sums, the total and the parent cut-off. A case is one epoch; non-trivial when it had >= 2 species; distinct by (species count, quota vector hash, rare-path flags)",
+		Rule:       "one run = a seeded world with a positive fitness landscape turned over for 1..N epochs; every epoch is observed before the turnover (raw fitness, membership, ages), at the 'epoch.prepared' observation point (adjusted fitness, expected offspring, quotas after stealing / delta coding, parents left after culling) and at the first speciation (number of babies); the apportionment oracle recomputes expectations, the carried-floor prefix sums, the total and the parent cut-off. A case is one epoch; non-trivial when it had >= 2 species; distinct by (species count, quota vector hash, rare-path flags)",
 		RealParts:  []string{"Species.adjustFitness / countOffspring, Population.purgeZeroOffspringSpecies / giveBabiesToTheBest / deltaCoding / purgeOrganisms, both epoch executors"},
 		StubParts:  []string{"fitness assignment (seeded landscape with at least one positive value)", "goroutine choice in parallel worlds"},
 		Assumes:    []string{"the age adjustment is only constrained to be one uniform positive factor per species (1 or the age-significance option for species too young to be stagnant); penalty constants are not mirrored", "1e-9 relative tolerance; where a cumulative expectation lies within 1e-6 of an integer either rounding is accepted"},
@@ -21,7 +21,7 @@ func init() {
 	})
 	Register(&Scenario{
 		Prop: "C10", Run: scenarioC10, QuickRuns: 1600, ThoroughRuns: 40000, Level: "exploration",
-		Rule: "one run = a seeded world with distinct positive fitness values turned over for 1..N epochs (long enough for champions to carry disabled, recurrent and re-enabled genes; with and without stolen babies and delta coding); for every species whose final quota exceeds five the next generation must contain a genome whose canonical dump (without the id) equals the pre-epoch dump of the species' fittest organism. A case is one (epoch, species with quota > 5); non-trivial when the champion carries a hidden node, a disabled or a recurrent gene; distinct by champion shape hash",
+		Rule:       "one run = a seeded world with distinct positive fitness values turned over for 1..N epochs (long enough for champions to carry disabled, recurrent and re-enabled genes; with and without stolen babies and delta coding); for every species whose final quota exceeds five the next generation must contain a genome whose canonical dump (without the id) equals the pre-epoch dump of the species' fittest organism. A case is one (epoch, species with quota > 5); non-trivial when the champion carries a hidden node, a disabled or a recurrent gene; distinct by champion shape hash",
 		RealParts:  []string{"Species.reproduce champion-clone and super-champion branches, Genome.duplicate, both epoch executors (the parallel one encodes and decodes every baby)"},
 		StubParts:  []string{"fitness assignment", "goroutine choice in parallel worlds"},
 		Assumes:    []string{"species in which the maximal fitness is not unique are skipped (the statement asks for distinct values)"},
